@@ -23,16 +23,6 @@ fn any_range(lo: i32, hi: i32) -> (i32, i32) {
     (a, b)
 }
 
-fn total_copies(t: &Tree) -> usize {
-    let mut n = 0;
-    let mut i = 0;
-    while i < t.verif_places() {
-        n += t.verif_copies_at(i).len();
-        i += 1;
-    }
-    n
-}
-
 /// history: insert v1 [insert v2] ; query q1 at t1 consuming k items then dropped ; query q2 at t2 >= t1 fully consumed.
 /// `shift` is the layout scale of the domain (bucket = (coordinate - lo) >> shift).
 fn seg_history(lo: i32, hi: i32, shift: u32, two: bool, partial_first: bool) {
@@ -120,27 +110,30 @@ fn c15_tree_copies_per_insert() {
     let (a, b) = any_range(0, 31);
     t.insert_by_range(SegRange { min: a, max: b }, Val { id: 1, exp: kani::any() });
     let m = place_mask(a as u32, b as u32);
-    let n = total_copies(&t);
-    assert_eq!(n as u32, m.count_ones());
-    assert!(n <= 8);
+    assert!(m.count_ones() <= 8);
+    // for every place j: exactly one copy iff bit j of the place mask is set (so the copy count is popcount(mask) <= 8)
     let j: usize = kani::any();
     kani::assume(j < t.verif_places());
     assert_eq!(t.verif_copies_at(j).len(), ((m >> j) & 1) as usize);
+    assert!(m >> t.verif_places() == 0);
     std::mem::forget(t);
 }
 
 /// C16: after a fully consumed whole-domain query at time t only copies of values with expiration >= t are stored.
-fn seg_purge(lo: i32, hi: i32, two: bool) {
+fn seg_purge(lo: i32, hi: i32, shift: u32, two: bool) {
     let mut t: Tree = SegExpTree::new(SegRange { min: lo, max: hi }).unwrap();
+    let bucket = |x: i32| ((x - lo) >> shift) as u32;
     let (a1, b1) = any_range(lo, hi);
     let e1: u8 = kani::any();
     t.insert_by_range(SegRange { min: a1, max: b1 }, Val { id: 1, exp: e1 });
+    let m1 = place_mask(bucket(a1), bucket(b1));
     let e2: u8 = kani::any();
+    let mut m2 = 0u64;
     if two {
         let (a2, b2) = any_range(lo, hi);
         t.insert_by_range(SegRange { min: a2, max: b2 }, Val { id: 2, exp: e2 });
+        m2 = place_mask(bucket(a2), bucket(b2));
     }
-    let before = total_copies(&t);
     let time: u8 = kani::any();
     let mut it = t.iter_by_range(SegRange { min: lo, max: hi }, time);
     let mut guard = 0;
@@ -148,29 +141,27 @@ fn seg_purge(lo: i32, hi: i32, two: bool) {
         guard += 1;
         assert!(guard <= 2);
     }
+    // at every place j: the stored copies are exactly those of the values with expiration >= time (none expired, none lost)
     let j: usize = kani::any();
     kani::assume(j < t.verif_places());
     let copies = t.verif_copies_at(j);
+    let want = (if e1 >= time { (m1 >> j) & 1 } else { 0 }) + (if two && e2 >= time { (m2 >> j) & 1 } else { 0 });
+    assert_eq!(copies.len() as u64, want);
     let q: usize = kani::any();
     kani::assume(q < copies.len());
     assert!(copies[q].0.exp >= time);
-    // nothing unexpired is dropped
-    let after = total_copies(&t);
-    if e1 >= time && (!two || e2 >= time) {
-        assert_eq!(after, before);
-    }
-    kani::cover!(after < before);
+    kani::cover!(e1 < time && (m1 >> j) & 1 == 1);
     std::mem::forget(t);
 }
 
 #[kani::proof]
 fn c16_purge_domain32_two_values() {
-    seg_purge(0, 31, true);
+    seg_purge(0, 31, 0, true);
 }
 
 #[kani::proof]
 fn c16_purge_domain128_one_value() {
-    seg_purge(-50, 77, false);
+    seg_purge(-50, 77, 2, false);
 }
 
 /// C12: clear leaves every place empty, exactly like a new tree; later queries return nothing.
@@ -186,7 +177,10 @@ fn c12_seg_clear_equals_new() {
     t.clear();
     let fresh: Tree = SegExpTree::new(SegRange { min: 0, max: 31 }).unwrap();
     assert_eq!(t.verif_places(), fresh.verif_places());
-    assert_eq!(total_copies(&t), 0);
+    let j: usize = kani::any();
+    kani::assume(j < t.verif_places());
+    assert_eq!(t.verif_copies_at(j).len(), 0);
+    assert_eq!(fresh.verif_copies_at(j).len(), 0);
     let (c, d) = any_range(0, 31);
     assert!(t.iter_by_range(SegRange { min: c, max: d }, kani::any()).next().is_none());
     // the caller's clock may restart: a value inserted after clear is found at an earlier time than before
@@ -222,4 +216,96 @@ fn c14_new_some_iff_more_than_16_points() {
         assert_eq!(n, 1);
         std::mem::forget(t);
     }
+}
+
+// ------------------------------------------------------------------------------------------------ C18 (segment tree)
+static mut FUSE: u8 = 255;
+static mut FIRED: bool = false;
+static mut TREE_PTR: *const SegExpTree<i32, u8, PVal> = std::ptr::null();
+static mut INS: [(u8, u8, u64); 2] = [(0, 0, 0); 2]; // (id, exp, place mask) of the inserted values
+static mut NINS: usize = 0;
+static mut QTIME: u8 = 0;
+
+#[derive(Clone, Copy)]
+struct PVal {
+    id: u8,
+    exp: u8,
+}
+impl ExpiredVal<u8> for PVal {
+    fn expiration(&self) -> u8 {
+        unsafe {
+            if FUSE == 0 && !TREE_PTR.is_null() {
+                // a panic here unwinds out of Iterator::next; what the caller keeps is the tree as it is now:
+                // every stored copy belongs to an inserted value and carries its full mask, and every value that is not
+                // expired at the query time still has exactly one copy at each of its places (nothing half-removed)
+                let t = &*TREE_PTR;
+                let j: usize = kani::any();
+                kani::assume(j < t.verif_places());
+                let copies = t.verif_copies_at(j);
+                let mut c = [0u8; 2];
+                let mut q = 0;
+                while q < copies.len() {
+                    let (v, m) = copies[q];
+                    let mut known = false;
+                    let mut i = 0;
+                    while i < NINS {
+                        if INS[i].0 == v.id {
+                            known = true;
+                            assert!(v.exp == INS[i].1 && m == INS[i].2 && (m >> j) & 1 == 1);
+                            c[i] += 1;
+                        }
+                        i += 1;
+                    }
+                    assert!(known);
+                    q += 1;
+                }
+                let mut i = 0;
+                while i < NINS {
+                    if INS[i].1 >= QTIME {
+                        assert!(c[i] as u64 == (INS[i].2 >> j) & 1);
+                    } else {
+                        assert!(c[i] <= 1);
+                    }
+                    i += 1;
+                }
+                FIRED = true;
+            }
+            if FUSE != 255 && FUSE > 0 {
+                FUSE -= 1;
+            }
+        }
+        self.exp
+    }
+}
+
+#[kani::proof]
+fn c18_seg_callback_state() {
+    let mut t: SegExpTree<i32, u8, PVal> = SegExpTree::new(SegRange { min: 0, max: 31 }).unwrap();
+    let (a1, b1) = any_range(0, 31);
+    let e1: u8 = kani::any();
+    t.insert_by_range(SegRange { min: a1, max: b1 }, PVal { id: 1, exp: e1 });
+    let (a2, b2) = any_range(0, 31);
+    let e2: u8 = kani::any();
+    t.insert_by_range(SegRange { min: a2, max: b2 }, PVal { id: 2, exp: e2 });
+    let time: u8 = kani::any();
+    let f: u8 = kani::any();
+    kani::assume(f < 4);
+    unsafe {
+        INS = [(1, e1, place_mask(a1 as u32, b1 as u32)), (2, e2, place_mask(a2 as u32, b2 as u32))];
+        NINS = 2;
+        QTIME = time;
+        TREE_PTR = &t as *const _;
+        FUSE = f;
+    }
+    let (c, d) = any_range(0, 31);
+    let mut n = 0;
+    for _ in t.iter_by_range(SegRange { min: c, max: d }, time) {
+        n += 1;
+        assert!(n <= 2);
+    }
+    kani::cover!(unsafe { FIRED });
+    unsafe {
+        FUSE = 255;
+    }
+    std::mem::forget(t);
 }
